@@ -342,6 +342,17 @@ class World:
             fs.extend(self.check_isolation("-"))
             self.res.events.append(f"requery {si} -> {len(acts)}")
             return fs
+        if kind_ == "termtext":
+            # a caller renders an old state for the terminal (public API; it walks the tree
+            # twice setting and clearing a per-node rendering flag)
+            st["fault.terminal_text_of_old_state_between_steps"] += 1
+            try:
+                s.root.terminal_text
+            except Exception:
+                st["diag.terminal_text_raised"] += 1
+            fs.extend(self.check_isolation("-"))
+            self.res.events.append(f"termtext {si}")
+            return fs
         if kind_ == "reprint":
             st["fault.reprint_of_old_state_between_steps"] += 1
             p = self._safe_str(s.root)
@@ -351,6 +362,8 @@ class World:
                 s.printed = p
             self.res.events.append(f"reprint {si}")
             return fs
+        if kind_ == "inplace":
+            return fs + self._inplace(si, s, op[2], op[3])
         if kind_ != "expand":
             raise core.HarnessError(f"unknown op {op!r}")
         rule_name, ni = op[2], op[3]
@@ -505,6 +518,60 @@ class World:
                                f"{trees.show(root)} ({how}) prints as {text!r}; variables {va} became {vb}"))
         return out
 
+    def _inplace(self, si, s, rule_name, ni):
+        """C04 only: the rule is applied to the live state itself rather than to a clone
+        (legitimate API use -- the library's own tests do it); the state is replaced by
+        the result.  C09 speaks of steps on cloned copies, so its runs never do this."""
+        st = self.res.stats
+        fs = []
+        if rule_name not in self.rules or (rule_name, ni) not in s.actions:
+            self.res.events.append(f"inplace {si} {rule_name} {ni} skip")
+            return fs
+        rule = self.rules[rule_name]
+        order = []
+        stack, cur = [], s.root
+        while stack or cur is not None:
+            while cur is not None:
+                stack.append(cur)
+                cur = cur.left
+            cur = stack.pop()
+            order.append(cur)
+            cur = cur.right
+        if ni >= len(order):
+            return fs
+        node = order[ni]
+        st["steps_in_place"] += 1
+        st["fault.step_applied_in_place"] += 1
+        new_root = None
+        try:
+            with core.op_budget(STEP_BUDGET_S):
+                if rule.can_apply_to(node):
+                    result = rule.apply_to(node).result
+                    new_root = result.get_root() if result is not None else None
+        except core.OpTimeout:
+            st["fault.step_aborted"] += 1
+        except Exception:  # noqa
+            st["fault.step_aborted"] += 1
+        if new_root is None or trees.size(new_root) > MAX_NODES:
+            # the state may be half rewritten: it leaves the pool
+            self.states.pop(si)
+            self.res.events.append(f"inplace {si} {rule_name} {ni} dropped")
+            return fs + self.check_isolation(rule_name)
+        fs.extend(self.round_trip(new_root, f"{rule_name} applied in place to {s.printed!r}"))
+        s.root = new_root
+        s.printed = self._safe_str(new_root)
+        s.actions = self._actions(new_root)
+        s.shadow = snapshot(new_root)
+        s.ids = {t[0] for t in s.shadow}
+        s.hash = struct_hash(new_root)
+        s.depth += 1
+        self.res.sigs["states"].add(s.hash)
+        if s.depth >= 2:
+            self.res.sigs["deep_states"].add(s.hash)
+        fs.extend(self.check_isolation(rule_name))
+        self.res.events.append(f"inplace {si} {rule_name} {ni} -> {s.hash} f={len(fs)}")
+        return fs
+
     def _reparse_site(self, root):
         """depth-1 shape of the smallest subtree that does not round-trip."""
         from mathy_core.parser import ExpressionParser
@@ -552,6 +619,9 @@ def rw_number(rng):
         return str(rng.randint(13, 60))
     if r < 0.93:
         return rng.choice(["0.00002", "0.0001", "0.000001", "0.1"])
+    if r < 0.94:
+        # constants whose text is longer than 64 characters
+        return rng.choice(["1" + "0" * 69 + "7", "0." + "0" * 70 + "7", "123456789" * 8])
     return rng.choice(["0", "1", "100", "144"])
 
 
@@ -665,6 +735,8 @@ RULE_SHAPES = [
     "X / Y", "X / -Y", "X / (Y / Z)", "(X / Y) / Z", "(X / Y) * Z", "X * (Y / Z)",
     "X - T", "X - -V", "X - -c", "X + -c", "X + -cV", "X + -cV^c", "X - (Y - Z)", "X - (c - Y)", "X - c^Y",
     "(X + Y) + Z", "X + (Y + Z)", "(X * Y) * Z", "X * (Y * Z)", "X + Y", "X * Y",
+    "(c * cV) * cV", "(X * cV^c) * cV^c", "(c * cV^c) * cV", "(X - (Y + T)) + T", "T + ((X - T) + Y)", "(X - T) + T",
+    "T + (X - T)", "(X + T) - T", "T - (T + X)", "(c * V) * (c * V)", "c * (V * (c * V))", "-(T + T)", "-(T) + T",
     "X + T = Y", "T + X = Y", "X = Y + T", "cV = X", "X = cV", "c * X = Y", "(X + T) * Y = Z", "-(X + T) = Y",
     "(X + T) / Y = Z", "X - (T + Y) = Z", "(X + T)^c = Y", "X + (Y + T) = Z",
 ]
@@ -830,6 +902,7 @@ class RewriteSim:
         cfg["policy"] = rng.choice(["uniform", "newest", "oldest", "round-robin", "deepest", "rare-rule"])
         cfg["n_ops"] = rng.choice([4, 8, 12, 24, 24, 40])
         cfg["query_p"] = rng.choice([0.0, 0.1, 0.3])
+        cfg["inplace_p"] = rng.choice([0.0, 0.2, 0.5]) if prop == "C04" else 0.0
         return cfg
 
     def generate(self, rng, cfg, world):
@@ -839,7 +912,7 @@ class RewriteSim:
                 return
             n = len(world.states)
             if rng.random() < cfg["query_p"]:
-                yield [rng.choice(["requery", "reprint"]), rng.randrange(n)]
+                yield [rng.choice(["requery", "reprint", "termtext"]), rng.randrange(n)]
                 continue
             pol = cfg["policy"]
             order = list(range(n))
@@ -872,6 +945,8 @@ class RewriteSim:
                 name = rng.choices(names, weights=w)[0]
                 ni = rng.choice(by_rule[name])
                 op = ["expand", si, name, ni]
+                if cfg.get("prop") == "C04" and rng.random() < cfg.get("inplace_p", 0.0):
+                    op[0] = "inplace"
                 break
             if op is None:
                 return
